@@ -177,7 +177,7 @@ OUTSIDE = [
   'task_arena::execute slot wait: the real execute() and the real ~nested_arena_context() are each checked against a minimal counterpart (execute_slot_wait / execute_slot_leave), not against each other in one query (solver out of memory); prepare_wait / cancel_wait / notify_one_relaxed / notify_relaxed are single atomic steps there; enqueue_task, r1::wait and the nested_arena_context bookkeeping on the entrant side are stubs',
   'concurrent_bounded_queue (C09), resume/suspend (C20)',
   'abort_all / user_abort exception path of the monitor (units are built with -fno-exceptions)',
-  'the bounded spinning phase before sleeping (timed_spin_wait_until) is abstracted to a single poll; the hash of get_address_waiter and collisions of two mutexes in one address-waiter slot',
+  'the bounded spinning phase before sleeping (timed_spin_wait_until) is abstracted to a single poll; the hash function of get_address_waiter itself (two mutexes colliding in one monitor IS covered: addr_mutex_shared); rw_mutex contexts colliding with another object in one monitor',
   'more than 3 threads, more than one wait per sleeper (quick), more than 2-3 scheduling rounds per thread',
 ]
 STUBS = [
@@ -192,5 +192,5 @@ STUBS = [
 ]
 ASSUMPTIONS = [
   'closed world for virtual dispatch: the only wait_node implementation in the checked TUs is sleep_node (resume_node of suspended tasks is C20); a different dynamic type traps',
-  'one waited-on address per addr_* harness, so a single address-waiter slot is exact',
+  'one address-waiter slot per addr_* harness: exact for one waited-on address, and the worst case (collision) for the two mutexes of addr_mutex_shared',
 ]
